@@ -6,143 +6,6 @@ From Cicada Require Import Base.Chars Base.Peg Gen.LocustGrammar Model.Script Mo
 From Coq Require Import ZArith Lia.
 Local Open Scope N_scope.
 
-Section Pres.
-Variable W : Type.
-Variable run_line : W -> str -> W * list Z.
-Variable for_words : W -> str -> W * list str.
-Variable set_var : W -> str -> str -> W.
-Variable eoe : W -> bool.
-Variable n : nat.
-Variable P : W -> Prop.
-Hypothesis Hrl : forall w l, P w -> P (fst (run_line w l)).
-Hypothesis Hfw : forall w t, P w -> P (fst (for_words w t)).
-Hypothesis Hsv : forall w k v, P w -> P (set_var w k v).
-
-Definition okW (o : outcome W) : Prop := match o with Done w _ _ _ => P w | _ => True end.
-Definition okBr (o : outcome_br W) : Prop := match o with DoneBr w _ _ _ _ => P w | _ => True end.
-
-Ltac ifs := repeat match goal with |- context [if ?c then _ else _] => destruct c end.
-
-Lemma exp_loop_pres rif rfor rwh :
-  (forall t il w, P w -> okW (rif t il w)) -> (forall t w, P w -> okW (rfor t w)) -> (forall t w, P w -> okW (rwh t w)) ->
-  forall pairs il w acc, P w -> okW (exp_loop W run_line eoe rif rfor rwh il pairs w acc).
-Proof.
-  intros H1 H2 H3. induction pairs as [|p r IH]; intros il w acc Hw; cbn [exp_loop]; [exact Hw|].
-  destruct (is_empty (t_txt p)); [apply IH, Hw|].
-  destruct (t_rule p =? L_CMD).
-  { destruct (str_eqb (t_txt p) kw_continue); [destruct il; [exact Hw | apply IH, Hw]|].
-    destruct (str_eqb (t_txt p) kw_break); [destruct il; [exact Hw | apply IH, Hw]|].
-    pose proof (Hrl w (t_txt p) Hw) as Hk. destruct (run_line w (t_txt p)) as [w1 crs]. cbn [fst] in Hk.
-    ifs; [exact Hk | apply IH, Hk]. }
-  destruct (t_rule p =? L_EXP_IF).
-  { pose proof (H1 p il w Hw) as Hk. destruct (rif p il w) as [w1 crs c b| |]; try exact I. cbn [okW] in Hk.
-    ifs; try exact Hk. apply IH, Hk. }
-  destruct (t_rule p =? L_EXP_FOR).
-  { pose proof (H2 p w Hw) as Hk. destruct (rfor p w) as [w1 crs c b| |]; try exact I. cbn [okW] in Hk.
-    ifs; try exact Hk. apply IH, Hk. }
-  destruct (t_rule p =? L_EXP_WHILE).
-  { pose proof (H3 p w Hw) as Hk. destruct (rwh p w) as [w1 crs c b| |]; try exact I. cbn [okW] in Hk.
-    ifs; try exact Hk. apply IH, Hk. }
-  apply IH, Hw.
-Qed.
-
-Lemma br_loop_pres rexp : (forall t il w, P w -> okW (rexp t il w)) ->
-  forall pairs il w tp, P w -> okBr (br_loop W run_line rexp il pairs w tp).
-Proof.
-  intros H1. induction pairs as [|p r IH]; intros il w tp Hw; cbn [br_loop]; [exact Hw|].
-  destruct ((t_rule p =? L_IF_HEAD) || (t_rule p =? L_IF_ELSEIF_HEAD) || (t_rule p =? L_WHILE_HEAD)).
-  { destruct (t_kids p) as [|pt ?]; [exact I|].
-    pose proof (Hrl w (t_txt pt) Hw) as Hk. destruct (run_line w (t_txt pt)) as [w1 crs]. cbn [fst] in Hk. apply IH, Hk. }
-  destruct (t_rule p =? L_KW_ELSE); [apply IH, Hw|].
-  destruct (t_rule p =? L_EXP_BODY); [|exact I].
-  destruct (negb tp); [exact Hw|].
-  pose proof (H1 p il w Hw) as Hk. destruct (rexp p il w); try exact I. exact Hk.
-Qed.
-
-Lemma if_loop_pres rbr : (forall t il w, P w -> okBr (rbr t il w)) ->
-  forall pairs il w acc c b, P w -> okW (if_loop W rbr il pairs w acc c b).
-Proof.
-  intros H1. induction pairs as [|p r IH]; intros il w acc c b Hw; cbn [if_loop]; [exact Hw|].
-  pose proof (H1 p il w Hw) as Hk. destruct (rbr p il w) as [w1 crs ps c1 b1| |]; try exact I. cbn [okBr] in Hk.
-  destruct ps; [exact Hk | apply IH, Hk].
-Qed.
-
-Lemma for_values_pres rexp body var : (forall t il w, P w -> okW (rexp t il w)) ->
-  forall vs w acc, P w -> okW (for_values W set_var eoe rexp body var vs w acc).
-Proof.
-  intros H1. induction vs as [|v vs IH]; intros w acc Hw; cbn [for_values]; [exact Hw|].
-  pose proof (H1 body true (set_var w var v) (Hsv w var v Hw)) as Hk.
-  destruct (rexp body true (set_var w var v)) as [w1 crs c b| |]; try exact I. cbn [okW] in Hk.
-  ifs; [exact Hk | apply IH, Hk].
-Qed.
-
-Lemma for_init_pres : forall kids w acc, P w -> P (fst (get_for_result_from_init W for_words w kids acc)).
-Proof.
-  induction kids as [|p r IH]; intros w acc Hw; cbn [get_for_result_from_init]; [exact Hw|].
-  destruct (t_rule p =? L_TEST); [|apply IH, Hw].
-  pose proof (Hfw w (t_txt p) Hw) as Hk. destruct (for_words w (t_txt p)) as [w1 ws]. apply IH, Hk.
-Qed.
-
-Lemma for_list_pres : forall kids w, P w -> P (fst (get_for_result_list_kids W for_words w kids)).
-Proof.
-  induction kids as [|p r IH]; intros w Hw; cbn [get_for_result_list_kids]; [exact Hw|].
-  destruct (t_rule p =? L_FOR_INIT); [apply for_init_pres, Hw | apply IH, Hw].
-Qed.
-
-Lemma for_loop_pres rexp : (forall t il w, P w -> okW (rexp t il w)) ->
-  forall pairs w acc var rl, P w -> okW (for_loop W for_words set_var eoe rexp pairs w acc var rl).
-Proof.
-  intros H1. induction pairs as [|p r IH]; intros w acc var rl Hw; cbn [for_loop]; [exact Hw|].
-  destruct (t_rule p =? L_FOR_HEAD).
-  { pose proof (for_list_pres (t_kids p) w Hw) as Hk.
-    destruct (get_for_result_list_kids W for_words w (t_kids p)) as [w1 rl1]. apply IH, Hk. }
-  destruct (t_rule p =? L_EXP_BODY); [|apply IH, Hw].
-  pose proof (for_values_pres rexp p var H1 rl w acc Hw) as Hk.
-  destruct (for_values W set_var eoe rexp p var rl w acc) as [w1 crs c b| |]; try exact I. apply IH, Hk.
-Qed.
-
-Lemma while_iter_pres rbr pw : (forall t il w, P w -> okBr (rbr t il w)) ->
-  forall k w acc, P w -> okW (while_iter W eoe rbr pw k w acc).
-Proof.
-  intros H1. induction k as [|k IH]; intros w acc Hw; cbn [while_iter]; [exact I|].
-  pose proof (H1 pw true w Hw) as Hk. destruct (rbr pw true w) as [w1 crs ps c b| |]; try exact I. cbn [okBr] in Hk.
-  ifs; [exact Hk | apply IH, Hk].
-Qed.
-
-Notation RE := (run_exp W run_line for_words set_var eoe n).
-Notation RIF := (run_exp_if W run_line for_words set_var eoe n).
-Notation RFOR := (run_exp_for W run_line for_words set_var eoe n).
-Notation RWH := (run_exp_while W run_line for_words set_var eoe n).
-Notation RBR := (run_exp_test_br W run_line for_words set_var eoe n).
-
-Lemma family_pres : forall d,
-  (forall t il w, P w -> okW (RE d t il w)) /\ (forall t il w, P w -> okW (RIF d t il w)) /\
-  (forall t w, P w -> okW (RFOR d t w)) /\ (forall t w, P w -> okW (RWH d t w)) /\
-  (forall t il w, P w -> okBr (RBR d t il w)).
-Proof.
-  induction d as [|d [I1 [I2 [I3 [I4 I5]]]]].
-  - repeat split; intros; exact I.
-  - repeat split.
-    + intros t il w Hw. apply (exp_loop_pres (RIF d) (RFOR d) (RWH d) I2 I3 I4), Hw.
-    + intros t il w Hw. apply (if_loop_pres (RBR d) I5), Hw.
-    + intros t w Hw. apply (for_loop_pres (RE d) I1), Hw.
-    + intros t w Hw. apply (while_iter_pres (RBR d) t I5), Hw.
-    + intros t il w Hw. apply (br_loop_pres (RE d) I1), Hw.
-Qed.
-
-Lemma run_pairs_pres d : forall pairs w acc, P w -> okW (run_pairs W run_line for_words set_var eoe n d pairs w acc).
-Proof.
-  induction pairs as [|p r IH]; intros w acc Hw; cbn [run_pairs]; [exact Hw|].
-  pose proof (proj1 (family_pres d) p false w Hw) as Hk.
-  destruct (RE d p false w) as [w1 crs c b| |]; try exact I. apply IH, Hk.
-Qed.
-
-Lemma run_lines_pres text w : P w ->
-  match run_lines W run_line for_words set_var eoe n text w with Some o => okW o | None => True end.
-Proof.
-  intro Hw. unfold run_lines. destruct (parse_from l_grammar L_EXP text); try exact I. apply run_pairs_pres, Hw.
-Qed.
-End Pres.
 
 (** ---- the shell-state model: exit_on_error stays on ---- *)
 Section Shell.
@@ -223,5 +86,37 @@ Proof.
   intros fuel rif rfor rwh lines w Hwf Hw.
   exact (flat_set_e_inv shs (exec_line ext file_text n fuel) s_eoe rif rfor rwh
            (proj1 (exec_pres fuel)) lines Hwf w [] Hw eq_refl).
+Qed.
+(** C15_sete, combined: nested blocks AND function calls AND `source`. Once exit_on_error is on
+    (set -e has been executed -- anywhere: at top level, inside a body, inside a called function),
+    every block the interpreter enters, of any well-formed shape, whose command lines may be
+    external commands, `set -e`, calls of functions with bodies of any shape and `source` of any
+    file, runs as the structured semantics with set -e in effect: the first statement whose last
+    pipeline failed, at any depth, ends it. *)
+Theorem sete_nested_calls : forall fuel b, wf_block b = true ->
+  forall d in_loop w r txt, (depth_block b < d)%nat -> s_eoe w = true ->
+  run_exp shs (exec_line ext file_text n fuel) no_words no_setvar s_eoe n d (TNode r txt (kids_of_block b)) in_loop w =
+  sem_block shs (exec_line ext file_text n fuel) no_words no_setvar true n b in_loop w.
+Proof.
+  intros fuel b Hwf d in_loop w r txt Hd Hw.
+  exact (run_exp_sem_inv shs (exec_line ext file_text n fuel) no_words no_setvar s_eoe true n flag_on
+           (proj1 (exec_pres fuel)) (fun w _ H => H) (fun w _ _ H => H) (fun w H => H)
+           b Hwf d in_loop w r txt Hd Hw).
+Qed.
+
+(** the remainder of the body in which `set -e` was just executed (results so far: acc, not failing) *)
+Theorem sete_rest_of_body : forall fuel b, wf_block b = true ->
+  forall d in_loop w acc, (depth_block b <= S d)%nat -> s_eoe w = true -> last_is_nonzero acc = false ->
+  exp_loop shs (exec_line ext file_text n fuel) s_eoe
+    (run_exp_if shs (exec_line ext file_text n fuel) no_words no_setvar s_eoe n d)
+    (run_exp_for shs (exec_line ext file_text n fuel) no_words no_setvar s_eoe n d)
+    (run_exp_while shs (exec_line ext file_text n fuel) no_words no_setvar s_eoe n d)
+    in_loop (kids_of_block b) w acc =
+  prepend_i shs acc (sem_block shs (exec_line ext file_text n fuel) no_words no_setvar true n b in_loop w).
+Proof.
+  intros fuel b Hwf d in_loop w acc Hd Hw Ha.
+  exact (run_exp_sem_inv_mid shs (exec_line ext file_text n fuel) no_words no_setvar s_eoe true n flag_on
+           (proj1 (exec_pres fuel)) (fun w _ H => H) (fun w _ _ H => H) (fun w H => H)
+           b Hwf d in_loop w acc Hd Hw Ha).
 Qed.
 End Shell.
